@@ -72,7 +72,7 @@ CLAIMED = {
              "Oracle: g++ compile+link of every accepted script from a feature pool and a large random generator of the documented style (all devices, every accepted call "
              "shape, helpers, lists, strings over all printable ASCII, control flow, nested first assignments).",
         note="Trusted: Lean kernel (propext, Classical.choice, Quot.sound); host g++ gnu++17 + mock Arduino core in place of avr-g++ and the real core/libraries; the C++ type "
-             "system beyond scoping is decided by the compiler run only (partial). Known findings K06a–K06f (loop variable after loop, `except Name`, helper called with int "
+             "system beyond scoping is decided by the compiler run only (partial). Known findings K06a–K06e, K06g (loop variable after loop, `except Name`, helper called with int "
              "and float, helper returning lists of different types, `for e in xs`, literal + literal).",
         technique="Lean 4 theorems (escape/lexer round-trip by induction, scoping well-formedness of the translation, brace balance) + model/parser and model/compiler correspondence + compiler oracle", ref="4/C06"),
     "C07": dict(
@@ -122,7 +122,7 @@ CLAIMED = {
              "expressions in every argument position, valid-Python torture inputs, the repo's own sources, byte noise and mutations; plus a no-state-between-calls test.",
         note="Trusted: Lean kernel (propext, Classical.choice, Quot.sound). PARTIAL: 'no file/process/network access', 'terminates promptly', 'only ValueError/SyntaxError' "
              "and 'no state mutation' are interpreter-level facts the model cannot exhibit; they rest on the audit tie over the generated inputs. Floats, true division "
-             "and & | ^ are outside the evaluator model. Known findings K11a (pow/shift bomb), K11b (non-Python accepted), K11c (RecursionError), K11d (IndexError).",
+             "and & | ^ are outside the evaluator model. Known findings K11a (pow/shift bomb), K11b (non-Python accepted), K11c (RecursionError); K11d (IndexError) was repaired (F22).",
         technique="Lean 4 non-interference theorem on the evaluator model + differential tie + audited-subprocess oracle", ref="4/C11"),
     "C12": dict(
         text="Theorems over the effect model of target() for every scenario (pair valid?, upload?, PlatformIO present?, Servo note?, 10 fault points), proved by kernel "
@@ -151,7 +151,7 @@ CLAIMED = {
              ">= 60 ms between trigger pulses for EVERY clock behaviour (Nat clock, arbitrary drift). Model tied bit-exactly to the emitted C++ compiled against the mock "
              "core with scripted inputs; trace monitors (one sample per pass, spacing, attempts, fresh analogRead per pot.read()) run on the real firmware.",
         note="Trusted: Lean kernel (propext, Classical.choice, Quot.sound); mock core + host g++; millis() wrap-around and float32 rounding of the distance are outside "
-             "the theorems; 'one analogRead per pot.read()' is decided by the trace monitor only. Known finding K15a (button declared in the loop body: start-up click).",
+             "the theorems; 'one analogRead per pot.read()' is decided by the trace monitor only. K15a (button declared in the loop body: start-up click) was repaired (F24).",
         technique="Lean 4 theorems on firmware state machines + bit-exact model/compiled-firmware correspondence (S_c) + trace monitors", ref="4/C15"),
     "C16": dict(
         text="Lean theorems over the emitted buzzer blocks for all states and arguments: frequency <= 0 never starts a tone; play_tone-with-duration/beep(times>=1)/sweep/"
